@@ -336,6 +336,11 @@ def gen_wellformed(r, i, specs):
                 exp_edges.append((u, v, wt))
         if r.chance(1, 10):
             parts.append("<!-- note -->" + nl)
+        if r.chance(1, 12):
+            # a vendor-extension element whose LOCAL name collides with a GraphML element: it is not a GraphML
+            # element (the qualified name differs), so the expected content does not change
+            parts.append(r.pick(['<x:node id="ghost"/>', '<x:node/>', '<x:edge source="ghost" target="ghost2"/>',
+                                 '<x:node id="ghost"></x:node>', '<x:key id="weight" for="node"/>']) + nl)
     parts.append("</graph>" + nl + "</graphml>" + nl)
     doc = "".join(parts)
     expect = {"directed": 1 if directed else 0, "nodes": [list(n.encode("utf-8")) for n in exp_nodes],
